@@ -54,3 +54,33 @@ Definition bundle_op (o : op) : bool := match o with OCreate _ _ | ORead _ _ _ =
 (* every registered descriptor carries its stream's name and has been emitted (tr = documents of earlier ops) *)
 Definition descr_inv (tr : list doc) (s : bstate) : Prop :=
   forall nm d, dget (b_descriptors s) nm = Some d -> de_name d = nm /\ In (DDescr d) (tr ++ b_out s).
+
+(* ------------------------------------------------------------------ C45 vocabulary *)
+Definition is_asset_doc (d : doc) : bool :=
+  match d with
+  | DStreamRes _ _ _ | DStreamDatum _ _ _ _ _ _ _ | DResource _ _ | DDatum _ _ => true
+  | _ => false
+  end.
+(* (indices start, stop, seq_nums start, stop, descriptor) of the stream datums among some documents *)
+Definition datum_ranges (docs : list doc) : list (Z * Z * Z * Z * uid) :=
+  flat_map (fun d => match d with
+                     | DStreamDatum _ _ de ia ib sa sb => [(ia, ib, sa, sb, de)]
+                     | _ => []
+                     end) docs.
+Definition widths (docs : list doc) : list Z :=
+  map (fun x => match x with (ia, ib, _, _, _) => (ib - ia)%Z end) (datum_ranges docs).
+(* the check of _pack_seq_nums_into_stream_datum along one collect: a width is compared with the previous one
+   unless that was 0 *)
+Fixpoint chain_ok (prev : Z) (ws : list Z) : bool :=
+  match ws with
+  | [] => true
+  | w :: r => (Z.eqb prev 0 || Z.eqb prev w) && chain_ok w r
+  end.
+
+(* what the devices of a collect message are asked *)
+Definition asked (E : env) (objs : list (obj * Z * list asset)) (idx : option Z) : list devcall :=
+  flat_map (fun x => let o := fst (fst x) in
+                     if dv_wsa (E o) then [CCollectAssets o idx]
+                     else if dv_wea (E o) then [CCollectAssets o None] else []) objs.
+Definition collect_objs (objs : list (obj * Z * list asset)) : list obj := map (fun x => fst (fst x)) objs.
+Definition collect_indices (objs : list (obj * Z * list asset)) : list Z := map (fun x => snd (fst x)) objs.
